@@ -47,7 +47,7 @@ impl Image {
 
         let visual_reference_node = node
             .children()
-            .find(|n| n.has_tag_name("visualReferenceRepresentation"));
+            .find(|n| xml::is_tag(n, "visualReferenceRepresentation"));
         let visual_reference = if let Some(node) = visual_reference_node {
             Some(VisualReferenceImage::from_node(&node)?)
         } else {
@@ -73,11 +73,11 @@ impl Image {
         let mut images = Vec::new();
         // Only a child of the root element is the list of images, an extension attribute
         // with the same name inside of a point cloud prototype is not
-        let root = Some(document.root_element()).filter(|n| n.has_tag_name("e57Root"));
-        let images2d = root.and_then(|r| r.children().find(|n| n.has_tag_name("images2D")));
+        let root = Some(document.root_element()).filter(|n| xml::is_tag(n, "e57Root"));
+        let images2d = root.and_then(|r| r.children().find(|n| xml::is_tag(n, "images2D")));
         if let Some(images2d_node) = images2d {
             for n in images2d_node.children() {
-                if n.has_tag_name("vectorChild") && n.attribute("type") == Some("Structure") {
+                if xml::is_tag(&n, "vectorChild") && n.attribute("type") == Some("Structure") {
                     let image = Self::from_node(&n)?;
                     images.push(image);
                 }
@@ -142,21 +142,21 @@ impl Projection {
     pub(crate) fn from_image_node(image_node: &Node) -> Result<Option<Self>> {
         let pinhole = image_node
             .children()
-            .find(|n| n.has_tag_name("pinholeRepresentation"));
+            .find(|n| xml::is_tag(n, "pinholeRepresentation"));
         if let Some(node) = &pinhole {
             return Ok(Some(Self::Pinhole(PinholeImage::from_node(node)?)));
         }
 
         let spherical = image_node
             .children()
-            .find(|n| n.has_tag_name("sphericalRepresentation"));
+            .find(|n| xml::is_tag(n, "sphericalRepresentation"));
         if let Some(node) = &spherical {
             return Ok(Some(Self::Spherical(SphericalImage::from_node(node)?)));
         }
 
         let cylindrical = image_node
             .children()
-            .find(|n| n.has_tag_name("cylindricalRepresentation"));
+            .find(|n| xml::is_tag(n, "cylindricalRepresentation"));
         if let Some(node) = &cylindrical {
             return Ok(Some(Self::Cylindrical(CylindricalImage::from_node(node)?)));
         }
@@ -194,12 +194,12 @@ pub struct ImageBlob {
 
 impl ImageBlob {
     pub(crate) fn from_rep_node(rep_node: &Node) -> Result<Self> {
-        if let Some(node) = &rep_node.children().find(|n| n.has_tag_name("jpegImage")) {
+        if let Some(node) = &rep_node.children().find(|n| xml::is_tag(n, "jpegImage")) {
             Ok(Self {
                 data: Blob::from_node(node)?,
                 format: ImageFormat::Jpeg,
             })
-        } else if let Some(node) = &rep_node.children().find(|n| n.has_tag_name("pngImage")) {
+        } else if let Some(node) = &rep_node.children().find(|n| xml::is_tag(n, "pngImage")) {
             Ok(Self {
                 data: Blob::from_node(node)?,
                 format: ImageFormat::Png,
